@@ -18,7 +18,8 @@ var (
 	preTwo     = z.Struct(z.Schema{"a": z.Int().GT(5).LT(0)})
 	prePT      = z.Struct(z.Schema{"a": z.Int().PostTransform(func(p any, c z.Ctx) error { return errors.New("x") })})
 	preFmt     = func(e *z.ZogIssue, c z.Ctx) { e.SetMessage("stale-formatter") }
-	nPreludes  = 7
+	preMsg     = z.Struct(z.Schema{"a": z.Int().GT(5, z.Message("mm")), "b": z.String().Min(9, z.Message("mm")).Catch("x")})
+	nPreludes  = 8
 	preludeOff bool
 )
 
@@ -58,6 +59,12 @@ func runPrelude(i int) {
 		prePT.Parse(map[string]any{"a": 3}, &d)
 		m := preTwo.Parse(map[string]any{"a": "zz"}, &d)
 		z.Issues.CollectMap(m)
+	case 7: // issues carrying a custom message, swallowed by Catch and handed back by the caller
+		var d preD
+		m := preMsg.Parse(map[string]any{"a": 1, "b": "x"}, &d)
+		z.Issues.CollectMap(m)
+		m = preMsg.Validate(&preD{A: 1, B: "x"})
+		z.Issues.SanitizeMapAndCollect(m)
 	case 6: // struct whose catching field is visited (possibly) last
 		var d preD
 		preStruct.Parse(map[string]any{"a": 1, "b": "123456789"}, &d)
